@@ -95,7 +95,7 @@ func c05Diff(before, after map[string]int) []string {
 }
 
 var c05Endings = []string{"deletion", "release", "read-timeout", "heartbeat-failure", "report-context-not-found"}
-var c05Prefixes = []string{"plain", "rejected-est-after-alloc", "rejected-mod-halfway", "mod-then-end", "idle-then-end", "update-pdr-refresh", "update-pdr-new-teid", "remove-pdr", "datapath-write-failure", "two-sessions"}
+var c05Prefixes = []string{"plain", "rejected-est-after-alloc", "rejected-mod-halfway", "mod-then-end", "idle-then-end", "update-pdr-refresh", "update-pdr-new-teid", "remove-pdr", "remove-dl-rules", "two-dl-alloc", "datapath-write-failure", "two-sessions"}
 
 func TestVerif_C05(t *testing.T) {
 	res := vNewResult("C05")
@@ -129,6 +129,9 @@ func TestVerif_C05(t *testing.T) {
 }
 
 func c05Scenario(res *vResult, rng *rand.Rand, up4 bool, ending, prefix string, desc map[string]interface{}, idx int) {
+	if prefix == "remove-dl-rules" && ending == "report-context-not-found" {
+		return // no downlink rule left to report on
+	}
 	o := vDefaultOpts(up4, vEnv.addr(1))
 	o.UEAlloc, o.UEPool = true, "10.61.0.0/24"
 	o.NotifyBess = !up4
@@ -170,6 +173,13 @@ func c05Scenario(res *vResult, rng *rand.Rand, up4 bool, ending, prefix string, 
 		e.PDRs[0].QERs, e.PDRs[1].QERs = []uint32{1, 2}, []uint32{1, 2}
 		if ending == "report-context-not-found" {
 			e.FARs[1] = vFARSpec{ID: 2, Action: ActionBuffer | ActionNotify}
+		}
+		if prefix == "two-dl-alloc" && !up4 {
+			// a second downlink PDR (dedicated flow) that asks for the UE address as well: one address, one release
+			d2 := e.PDRs[1]
+			d2.ID, d2.Prec = 4, 50
+			d2.SDF = fmt.Sprintf("permit out udp from 10.8.%d.0/24 53 to assigned", n)
+			e.PDRs = append(e.PDRs, d2)
 		}
 		return e
 	}
@@ -275,6 +285,13 @@ func c05Scenario(res *vResult, rng *rand.Rand, up4 bool, ending, prefix string, 
 			res.note("prefix idle-then-end: the Update FAR to BUFF|NOCP was not accepted")
 		}
 	}
+	if prefix == "remove-dl-rules" {
+		// the downlink PDR and its FAR are removed by an accepted modification; the session (uplink only) then ends
+		seq++
+		if m := c01Request(p, p.modify(vModSpec{Seq: seq, SEID: ups[0], RmPDR: []uint16{2}, RmFAR: []uint32{2}}), seq); m == nil || vDecodeReply(m).Cause != ie.CauseRequestAccepted {
+			res.note("prefix remove-dl-rules: the modification was not accepted")
+		}
+	}
 	if prefix == "update-pdr-refresh" || prefix == "update-pdr-new-teid" || prefix == "remove-pdr" {
 		// the uplink PDR got a UP-chosen F-TEID at establishment; the control plane now refreshes it (same F-TEID, by value),
 		// moves it to an F-TEID of its own choice (BESS only), or removes it (BESS only). Whatever the session acquired must
@@ -332,6 +349,9 @@ func c05Scenario(res *vResult, rng *rand.Rand, up4 bool, ending, prefix string, 
 		for _, u := range ups {
 			seq++
 			m := c01Request(p, p.deletion(seq, u), seq)
+			if up4 && prefix == "remove-dl-rules" {
+				continue // judged as a whole below (recorded finding)
+			}
 			if m == nil || vDecodeReply(m).Cause != ie.CauseRequestAccepted {
 				res.violate("C05.R0", "deletion-rejected "+prefix, fmt.Sprintf("Session Deletion Request for the live session %#x was rejected (prefix %s)", u, prefix), desc)
 			}
@@ -392,6 +412,23 @@ func c05Scenario(res *vResult, rng *rand.Rand, up4 bool, ending, prefix string, 
 	w := map[string]interface{}{"scenario": desc, "before": before, "with_sessions": mid, "after": after}
 	// root causes recorded as known findings get one shape each (C05.R4)
 	known := ""
+	if up4 && prefix == "remove-dl-rules" {
+		// recorded finding: with the downlink PDR gone UP4 has forgotten the UE address of the session and cannot build the
+		// keys of the uplink entries any more; whatever ends the session, the uplink rules and all they hold stay
+		if d := c05Diff(before, after); len(d) > 0 || len(a.p4.snapshot().Entries) != tablesBefore {
+			res.violate("C05.R4", "up4-uplink-rules-undeletable-after-downlink-pdr-removed", fmt.Sprintf("after an accepted Remove PDR/FAR of the downlink rules and the session ended by %s: %v; %d table entries more than before", ending, d, len(a.p4.snapshot().Entries)-tablesBefore), w)
+		}
+		if ending != "deletion" {
+			// what does not depend on the switch is reclaimed all the same when the association ends
+			for _, k := range []string{"ip_free", "ip_held", "teids_in_use", "stored_sessions", "pfcp_sessions_gauge"} {
+				if before[k] != after[k] {
+					res.violate("C05.R2", fmt.Sprintf("%s not-reclaimed %s %s", k, ending, prefix), fmt.Sprintf("after the session(s) ended by %s (prefix %s): %s %d -> %d (before the sessions -> after they ended)", ending, prefix, k, before[k], after[k]), w)
+				}
+			}
+		}
+		a.p4.takeC16()
+		return
+	}
 	switch {
 	case prefix == "datapath-write-failure":
 		known = "up4-failed-establishment-not-rolled-back"
